@@ -71,6 +71,12 @@ def to_pym(e):
         return p.Power(to_pym(e[1]), to_pym(e[2]))
     if k == "lookup":
         return p.Lookup(to_pym(e[1]), e[2])
+    if k == "nparr":          # a NumPy object array of expressions (e.g. a coefficient table times a variable)
+        import numpy as np
+        a = np.empty(len(e[1]), dtype=object)
+        for i, c in enumerate(e[1]):
+            a[i] = to_pym(c)
+        return a
     if k == "nary":
         ch = tuple(to_pym(c) for c in e[2])
         return {"sum": p.Sum, "prod": p.Product, "min": p.Min, "max": p.Max,
@@ -120,6 +126,8 @@ def from_pym(x):
         return ["pow", from_pym(x.base), from_pym(x.exponent)]
     if isinstance(x, p.Lookup):
         return ["lookup", from_pym(x.aggregate), x.name]
+    if isinstance(x, np.ndarray) and x.dtype == object and x.ndim == 1:
+        return ["nparr", [from_pym(c) for c in x]]
     for cls, nm in ((p.Sum, "sum"), (p.Product, "prod"), (p.Min, "min"), (p.Max, "max"),
                     (p.LogicalAnd, "and"), (p.LogicalOr, "or")):
         if isinstance(x, cls):
@@ -424,6 +432,13 @@ class Gen:
         self.funcs = list(funcs)
         self.loopvars = list(loopvars)
 
+    def objarr(self):
+        """a NumPy object array holding expressions (evaluated entry by entry by the interpreter); only at the
+        top of a right-hand side, call argument or yielded expression -- Assign flattens its rhs and pymbolic's
+        flattener rejects arrays inside sums.  Outside the Coq model: oracle-only stream."""
+        r = self.rng
+        return ["nparr", [["var", r.choice(self.ints)] if self.ints else ["int", 0], self.int_expr(1)]]
+
     def int_expr(self, d=3):
         r = self.rng
         if d <= 0 or r.random() < 0.3:
@@ -508,4 +523,6 @@ def expr_vars(e):
         return expr_vars(e[1]) | expr_vars(e[2])
     if k == "lookup":
         return expr_vars(e[1])
+    if k == "nparr":
+        return set().union(set(), *[expr_vars(c) for c in e[1]])
     return set()
